@@ -152,6 +152,23 @@ static void et_make_cfg(const char *profile, vh_rng_t *g, uint64_t idx)
     c->slow_cb_us          = c->burst ? 4000 + (int)vh_below(g, 3000) : 0;
     c->reinit_mode         = 0;
     c->lookups             = 0;
+    /* every second block of 27: the busy connection's outstanding query is in a backed-off attempt, so the
+     * deadline the event thread sleeps against is far later than the deadline of the request that arrives */
+    c->backoff             = (c->conn_sit == ET_CONN_BUSY) && ((idx / 27) % 2 == 1);
+    if (c->backoff) {
+      c->burst         = 0;
+      c->slow_cb_us    = 0;
+      c->srv_sit       = ET_SIT_SILENT;
+      c->nsrv          = 1;
+      c->tries         = 4;
+      c->timeout_ms    = 200;
+      c->maxtimeout_ms = 1600;
+      c->usevc         = 0;
+      c->inj_density   = 0;
+      c->nclients      = 1;
+      c->second_client = 0;
+      c->offset_us     = (int[]){ 0, 50, 1000, 10000 }[vh_below(g, 4)];
+    }
   }
 }
 
@@ -183,6 +200,9 @@ static int et_wait_et_asleep(int ms)
 
 static _Atomic int et_timers_probe = -1;
 static _Atomic int et_timers_asleep_seen;
+static _Atomic int et_backoff_reached;
+static int         et_backoff_confirming; /* second run of a case whose first run saw a late retry */
+static int         et_backoff_need_confirm;
 
 static void *et_client_timers(void *arg)
 {
@@ -200,6 +220,7 @@ static void *et_client_timers(void *arg)
       t0       = et_now_ns();
       et_do_op(c, kind);
       et_client_log(c, kind, t0);
+      et_check_no_lock_held(kind);
       et_sleep_us(300 + (long)vh_below(&c->rng, 3000));
     }
     return NULL;
@@ -217,6 +238,20 @@ static void *et_client_timers(void *arg)
     et_client_log(c, K_QUERY, t0);
     while (w >= 0 && atomic_load(&et_reqs[w].cb_count) == 0) {
       et_sleep_us(200); /* the watchdog bounds this */
+    }
+  } else if (et_cfg.backoff) {
+    int64_t w0;
+    snprintf(sp.name, sizeof(sp.name), "silbk.ex.test");
+    t0 = et_now_ns();
+    et_issue(&sp, 0, et_channel, 0);
+    et_client_log(c, K_QUERY, t0);
+    /* wait for the 4th transmission: its timeout is 800..1600 ms (200 ms << 3, minus up to half as jitter) */
+    w0 = et_now_ns();
+    while (atomic_load(&et_bk_ntx) < 4 && et_now_ns() - w0 < 6000 * 1000000LL) {
+      et_sleep_us(200);
+    }
+    if (atomic_load(&et_bk_ntx) >= 4) {
+      atomic_store(&et_backoff_reached, 1);
     }
   } else if (et_cfg.conn_sit == ET_CONN_BUSY) {
     int n = et_cfg.burst ? 8 + (int)vh_below(&c->rng, 8) : 1;
@@ -247,6 +282,9 @@ static void *et_client_timers(void *arg)
   }
   snprintf(sp.name, sizeof(sp.name), "p%d.ex.test", (int)vh_below(&c->rng, 100));
   sp.kind = vh_chance(&c->rng, 1, 3) ? K_SEND : K_QUERY;
+  if (et_cfg.backoff) {
+    snprintf(sp.name, sizeof(sp.name), "silpb.ex.test");
+  }
   t0      = et_now_ns();
   atomic_store(&et_timers_probe, et_issue(&sp, 0, et_channel, 0));
   et_client_log(c, sp.kind, t0);
@@ -280,6 +318,11 @@ static void et_reset_state(void)
   atomic_store(&et_resp_stop, 0);
   atomic_store(&et_timers_probe, -1);
   atomic_store(&et_timers_asleep_seen, 0);
+  atomic_store(&et_backoff_reached, 0);
+  atomic_store(&et_dup_live, 0);
+  atomic_store(&et_dup_last_end_ns, 0);
+  atomic_store(&et_bk_ntx, 0);
+  atomic_store(&et_pb_ntx, 0);
   atomic_store(&et_open_lib_socks, 0);
   atomic_store(&et_confchg_seen_gen, 0);
   atomic_store(&et_confchg_changed, 0);
@@ -505,6 +548,33 @@ static void et_run_case(const char *profile, uint64_t seed, uint64_t idx)
                      "returned", i, et_kind_name[atomic_load(&r->kind)]);
       }
     }
+    if (et_cfg.backoff) {
+      /* A request issued from an application thread while the event thread sleeps against a far deadline must
+       * still be retried after ITS OWN timeout (first attempt: timeout_ms, no jitter).  Observed at the server:
+       * gap between the first two transmissions of the probe.  Slack 300 ms; a late gap is confirmed by
+       * running the case a second time before it is reported (a loaded machine can delay one wake-up). */
+      int ntx = atomic_load(&et_pb_ntx);
+      if (!atomic_load(&et_backoff_reached) || !atomic_load(&et_timers_asleep_seen)) {
+        vh_count("timers.backoff.not_reached");
+      } else if (ntx < 2) {
+        vh_count("timers.backoff.probe_sent_once");
+      } else {
+        double gap = (double)(atomic_load(&et_pb_tx_ns[1]) - atomic_load(&et_pb_tx_ns[0])) / 1e6;
+        vh_count("timers.backoff.retry_gap_evaluated");
+        if (gap > et_cfg.timeout_ms + 300) {
+          if (et_backoff_confirming) {
+            vh_violation("timer:et:retry-late:busy-backoff",
+                         "a request issued while the event thread slept against the deadline of an older query in "
+                         "its 4th attempt (800..1600 ms away) was retransmitted %.0f ms after its first "
+                         "transmission, its timeout is %d ms (seen in two consecutive runs of the case); backend=%s",
+                         gap, et_cfg.timeout_ms, et_backend_name[et_cfg.backend == 0 ? 0 : et_cfg.backend - 1]);
+          } else {
+            et_backoff_need_confirm = 1;
+            vh_count("timers.backoff.late_once_rerun");
+          }
+        }
+      }
+    }
     for (j = 0; j < nw; j++) {
       et_waitrec_t *w  = &et_waits[j];
       uint64_t      t1 = atomic_load(&w->t1), t2 = atomic_load(&w->t2);
@@ -611,7 +681,7 @@ static void et_run_case(const char *profile, uint64_t seed, uint64_t idx)
     if (et_cfg.profile == ET_P_TIMERS && nontrivial) {
       vh_fp_add(vh_fnv_u64(vh_fnv_u64(vh_fnv_u64(vh_fnv_u64(vh_fnv_str(VH_FNV_INIT, "timers"), (uint64_t)bk),
                                                  (uint64_t)et_cfg.conn_sit), (uint64_t)et_cfg.srv_sit),
-                           (uint64_t)(et_cfg.usevc * 2 + et_cfg.burst)));
+                           (uint64_t)(et_cfg.usevc * 2 + et_cfg.burst + et_cfg.backoff * 4)));
       snprintf(nm, sizeof(nm), "timers.case.%s.%s.%s", et_backend_name[bk], et_conn_name[et_cfg.conn_sit],
                et_sit_name[et_cfg.srv_sit]);
       vh_count(nm);
@@ -649,6 +719,11 @@ static void et_run_case(const char *profile, uint64_t seed, uint64_t idx)
   ET_CNT("et_wait.woken_by_event", et_n_wake_events);
   ET_CNT("et_wait.ran_into_timeout", et_n_wake_timeout);
   ET_CNT("et_wait.other_event_threads", et_n_other_et_waits);
+  ET_CNT("monitor.lock_balance.evaluated", et_n_lockbal_eval);
+  ET_CNT("monitor.readable_socket.seen", et_n_readable_seen);
+  ET_CNT("monitor.readable_socket.judged_after_200ms", et_n_readable_judged);
+  ET_CNT("monitor.readable_socket.tick_late_observation_restarted", et_n_readable_overload);
+  ET_CNT("op.refused_by_library", et_n_refused);
   ET_CNT("lock.acquisitions", et_n_lock);
   ET_CNT("lock.contended", et_n_contended);
   ET_CNT("lock.contended.library_thread", et_contended_by_role[0]);
@@ -725,9 +800,9 @@ static void et_run_case(const char *profile, uint64_t seed, uint64_t idx)
     if (et_cfg.profile == ET_P_TIMERS) {
       int p = atomic_load(&et_timers_probe);
       vh_sb_printf(&sb, ",\"connection\":\"%s\",\"server\":\"%s\",\"offset_us\":%d,\"burst\":%d,"
-                   "\"idle_after_timeout\":%d",
+                   "\"idle_after_timeout\":%d,\"older_query_backed_off\":%d",
                    et_conn_name[et_cfg.conn_sit], et_sit_name[et_cfg.srv_sit], et_cfg.offset_us, et_cfg.burst,
-                   et_cfg.idle_after_timeout);
+                   et_cfg.idle_after_timeout, et_cfg.backoff);
       if (p >= 0) {
         vh_sb_printf(&sb, ",\"probe_status\":\"%s\",\"probe_ms\":%.1f",
                      ares_strerror(atomic_load(&et_reqs[p].cb_status)),
@@ -763,6 +838,13 @@ int main(int argc, char **argv)
   }
   for (i = 0; i < a.count; i++) {
     et_run_case(a.profile, a.seed, a.first + i);
+    if (et_backoff_need_confirm) {
+      et_backoff_need_confirm = 0;
+      et_backoff_confirming   = 1;
+      et_run_case(a.profile, a.seed, a.first + i);
+      et_backoff_confirming   = 0;
+      et_backoff_need_confirm = 0;
+    }
   }
   vh_chunk_end();
   return 0;
